@@ -24,6 +24,9 @@ fn dispatch(kind: &str, case: &Value, dir: &Path) -> Value {
 }
 
 pub fn main(args: &[String]) -> ! {
+    if args[0] == "c14shard" {
+        crate::props::c14::shard_main(&args[1..]);
+    }
     let kind = &args[0];
     let cases_file = &args[1];
     let shard: usize = args[2].parse().unwrap();
